@@ -730,17 +730,19 @@ def insertChars (com : CompEditor) : List Nat → Outcome CompEditor
     | .panic p => .panic p
     | .outOfFuel => .outOfFuel
 
-/-- full-width replacement of the key's character, or the `unwrap()` panic -/
-def fullOrPanic (ev : KeyEvent) (k : Nat → StepRes D L) : StepRes D L :=
+/-- full-width replacement of the key's character; a key that has none (a non-printable key) is
+    answered with a bell (`let Some(char_) = full_width_symbol_input(..) else { return self.spin_bell() }`;
+    before the F01 fix this was `unwrap()`, a panic) -/
+def fullOrBell (sh : Shared D L) (ev : KeyEvent) (k : Nat → StepRes D L) : StepRes D L :=
   match fullWidthSymbolInput ev.unicode with
   | some c => k c
-  | none => .panic "full-width-unwrap"
+  | none => .ok (sh, .spin .bell)
 
 /-- commit / insert the key's character in the current character form -/
 def inputChar (sh : Shared D L) (ev : KeyEvent) : StepRes D L :=
   match sh.options.characterForm with
   | .half => commitOrInsert sh ev.unicode
-  | .full => fullOrPanic ev fun c => commitOrInsert sh c
+  | .full => fullOrBell sh ev fun c => commitOrInsert sh c
 
 /-- Chinese mode, key not taken by the phonetic layout: special symbol, printable character, or bell -/
 def chineseFallback (sh : Shared D L) (ev : KeyEvent) : StepRes D L :=
